@@ -91,6 +91,20 @@ PROPS = {
             "note": "Trusted: refmodel::dur, refmodel::round, the exact-division helper (unit-tested against f64 division of safe integers).",
         },
     },
+    "C10": {
+        "builds": ["chk"],
+        "rule": ("complete option matrix, identical in both tiers: {until,since} x {PlainDate, PlainDateTime, PlainTime, PlainYearMonth, Instant, ZonedDateTime(UTC)} x largestUnit {absent, auto, 10 units} "
+                 "x smallestUnit {absent, auto, 10 units} x increment {absent,1,2,3,4,5,6,7,8,10,12,15,20,24,25,30,59,60,100,500,999,1000,1001,86400,1e9} x mode {absent, 9 modes} x operands "
+                 "{distinct, identical}; round x {PlainTime, PlainDateTime, Instant} x smallest x increment x mode; Duration::round x {time-only, calendar} duration x {no relativeTo, plain date} x "
+                 "largest x smallest x increment x mode; Duration::total x unit; toString x {PlainTime, PlainDateTime, Instant, ZonedDateTime, Duration} x digits {auto,0,3,9,10,255} x smallestUnit x mode. "
+                 "Every cell is a distinct case; accept/reject judged against the GetDifferenceSettings-style table, and for cells the exact models decide the resolved defaults are read off the value"),
+        "assumptions": ["cells whose acceptance hinges on rules outside the three families named by the property (increment > 1 on a date unit with largest != smallest in Duration::round; an increment of 1e9 date units walking out of range) are counted undecided, not judged"],
+        "manifest": {
+            "technique": "runtime monitoring: exhaustive option-matrix enumeration against a table-driven acceptance model, defaults observed through results",
+            "text": "The finite option space is enumerated completely on every run (about 1e6 cells, evidence says exhaustive: true): each cell's Ok/RangeError outcome is compared with a table model of Temporal's unit-group, largest>=smallest and increment rules, with identical operands included so that validation skipped by a fast path is visible; accepted cells that the exact rounding/balance models decide also check the resolved largest unit, mode (trunc for differences, halfExpand for round, negated for since) and increment through the returned value.",
+            "note": "Trusted: the acceptance table (written from the specification's GetDifferenceSettings / round / toString option rules) and refmodel::round/dur.",
+        },
+    },
 }
 
 
